@@ -1,7 +1,8 @@
 --------------------------- MODULE ClientConfJudge ---------------------------
 (* C20 stage C (code -> spec): observations of read_client_conf / default_keychain / default_face on
    random configurations larger than the exhaustive product (up to 6 candidate files, any existence
-   subset, independent key states, independent location classes, several default locations) and on
+   subset, every candidate a regular file or a directory, independent key states incl. empty values, variables
+   unset / set / empty, independent location classes, several default locations) and on
    random transport URIs are judged by TLC evaluating the reference of ClientConf.
    Record k = "conf": c (configuration as JSON), obs (projection of what the library returned).
    Record k = "face": u (transport URI as a record), obs (face kind / address / port or "err").
@@ -12,7 +13,7 @@ Recs == ndJsonDeserialize(IOEnv.TRACE_FILE)
 VARIABLE tid
 
 ToSet(q) == {q[i] : i \in 1..Len(q)}
-CfgOf(j) == [n |-> j.n, exist |-> ToSet(j.exist), key |-> j.key, env |-> j.env, loc |-> j.loc, defx |-> j.defx, val |-> j.val]
+CfgOf(j) == [n |-> j.n, exist |-> ToSet(j.exist), kind |-> j.kind, key |-> j.key, env |-> j.env, loc |-> j.loc, defx |-> j.defx, val |-> j.val]
 Verdict(r) == IF r.k = "conf" THEN Clauses(CfgOf(r.c), r.obs)
               ELSE (IF FaceOf(r.u) # r.obs THEN {"face"} ELSE {})
 
